@@ -39,6 +39,13 @@ UNIT = dict(
     ],
     runs=[],
 )
+UNIT['functions'] += [
+    dict(file=DT_CPP, name='NumberDataType::readSymbols', cname='NDT_readSymbols', self='NDT',
+         cfg=dict(own_methods={'readRawValue': ('glue_readRawValue', 'self'), 'readFromRawValue': ('glue_readFromRawValue', 'self')}, text_subs=[(r'glue_readRawValue\(self, offset, length, \(\*input\), &value\)', 'glue_readRawValue(self, offset, length, input, &value)')])),
+    dict(file=DT_CPP, name='NumberDataType::writeSymbols', cname='NDT_writeSymbols', self='NDT',
+         cfg=dict(type_map={'istringstream': 'struct iss', 'string': 'int'}, own_methods={'parseInput': ('glue_parseInput', 'self'), 'writeRawValue': ('glue_writeRawValue', 'self')}),
+         pre_subs=[(r'const string inputStr = input->str\(\);', 'const int inputStr = input->text;', 1)]),
+]
 
 
 def R(id, entry, enforce=None, replace=(), loops=False, props=('C05', 'C12', 'C20'), **kw):
@@ -47,3 +54,4 @@ def R(id, entry, enforce=None, replace=(), loops=False, props=('C05', 'C12', 'C2
     UNIT['runs'].append(d)
 
 R('render', 'h_render', None, unwind=6, defines=['SS_CAP=8'], cost=60, timeout=1200)
+R('glue', 'h_glue', None, unwind=6, defines=['SS_CAP=8'], cost=5, props=('C05', 'C06', 'C07', 'C20'))
